@@ -922,11 +922,12 @@ def compute_correlations_nt(
                 continue
             ft_max = ft.max()
             if (ft_max > last_times).any():
-                lt = last_times[last_times >= ft_max]
+                mask = last_times >= ft_max
+                lt = last_times[mask]
                 if len(lt) == 0:
                     continue
                 last_times = lt
-                inds = sch_indices[i][-1][-len(lt):]
+                inds = sch_indices[i][-1][mask]
                 sch_indices[i][-1] = inds
             sch_indices[i] = tuple(sch_indices[i])
 
